@@ -143,6 +143,17 @@ def applied_once(fx, rep):
             "the instance state is updated and the function can still return %s: a sample dropped by the ownership / time filter / "
             "resource limits changes the instance state (and generation counts) seen by the application" % ", ".join("%s (line %s)" % h for h in hit[:4]),
             t.line)
+    # R22d: the generation counts stored with the sample are read after this change has been applied to the instance:
+    # the sample that revives an instance must carry the incremented count (it belongs to the new generation)
+    snaps = [(bb, s) for bb, i, s in fc.aggregates("ReaderSample") if "disposed_generation_count" in (s.rv.agg.get("fields") or [])]
+    ub = [bb for bb, _ in ups]
+    # a path that builds Err(..) leaves through `?` and never reaches the snapshot (the CFG alone does not know that)
+    errs = [bb for bb, i, s in fc.aggregates("Result", "Err")]
+    for bb, s in snaps:
+        add("R22d", "the sample's generation counts are read after update_state has been applied for this change", bool(ub) and bb not in m.reachable(0, removed_blocks=ub + errs),
+            "a path builds the ReaderSample (snapshot of disposed / no_writers generation counts) without a preceding update_state: the first sample after a rebirth would report the previous generation",
+            s.line)
+    rep.floor("R22d", len(snaps), 1, "ReaderSample constructions in add_reader_change")
     return n
 
 
